@@ -116,6 +116,11 @@ pub trait Responder: Send + 'static {
     fn on_frame(&mut self, io: &mut BrokerIo, frame: &AMQPFrame);
     /// Called on every wake-up (at least every few milliseconds while idle).
     fn on_tick(&mut self, _io: &mut BrokerIo) {}
+    /// Wake the broker immediately when the client's writer is held by the transport (true for
+    /// responders that grant held writes; false avoids spinning during deliberate stalls).
+    fn wake_on_hold(&self) -> bool {
+        true
+    }
 }
 
 type Cmd<R> = Box<dyn FnOnce(&mut R, &mut BrokerIo) + Send>;
@@ -309,8 +314,9 @@ pub fn spawn_broker<R: Responder>(wire: Wire, cfg: ServerCfg, r: R) -> BrokerHan
                 // sleep until something happens
                 let pos = dec.pos();
                 let ctl3 = ctl2.clone();
+                let woh = r.wake_on_hold();
                 wire.wait_until(Duration::from_millis(2), |st| {
-                    (st.out.len() > pos && (pos > 0 || st.out.len() >= 8)) || st.held || {
+                    (st.out.len() > pos && (pos > 0 || st.out.len() >= 8)) || (woh && st.held) || {
                         let g = ctl3.lock().unwrap();
                         g.stop || !g.cmds.is_empty()
                     }
@@ -542,5 +548,8 @@ impl Responder for AutoBroker {
         if self.auto_grant && io.wire.is_held() {
             io.wire.grant(0);
         }
+    }
+    fn wake_on_hold(&self) -> bool {
+        self.auto_grant
     }
 }
